@@ -20,7 +20,8 @@ RULE = ("typed filters over the union of what the three dialects translate (all 
         "value, exactly once outside argument-repeating templates; the alias prefixes every field and nothing "
         "else. Exhaustive: every function x every argument being a composite of every operator class. "
         "Non-trivial: >= 3 operator/function nodes with an operator nested under a different one; distinct by "
-        "(term skeleton, dialect, alias).")
+        "(term skeleton, dialect, alias)."
+        " String leaves carry tails that need quoting/escaping (' % _' \\ %'q); some lists repeat one of their values and every written element must still be emitted (occurrence counts are compared).")
 ASSUMPTIONS = ["standard/Athena well-formedness is judged by the harness parser (vp/sqlparse.py), not by a running engine",
                "function templates may reorder or repeat their arguments; only leaf identity is compared inside them"]
 
